@@ -17,7 +17,7 @@ FILES = ["src/stereomolgraph/algorithms/color_refine.py", "src/stereomolgraph/ex
          "src/stereomolgraph/graphs/smg.py", "src/stereomolgraph/graphs/crg.py", "src/stereomolgraph/graphs/scrg.py"]
 FUNCTIONS = ["__hash__ of the four classes", "color_refine_hash_*", "morgan_generator", "stereo_morgan_generator", "_reaction_generator", "_color_refine"]
 BOUNDS = {"quick": "family 1: A any MG/SMG graph over {0,1,2} (SMG with descriptors), B every family member; family 2: star4 with ligands H,F,Cl,Br / "
-                   "dbond with (H,F | H,F) and (H,F | Cl,Br), every ordering (strided) and embedding 0..2; family 3: A any CRG/SCRG graph over {0,1,2}, "
+                   "dbond with (H,F | H,F), (H,F | Cl,Br), (H,F | H,Cl), (H,Cl | H,Br), every ordering (strided) and embedding 0..2; family 3: A any CRG/SCRG graph over {0,1,2}, "
                    "B every family member on the same atoms, plus reverse_reaction()",
           "thorough": "MG over {0,1,2,3}; all orderings of the stereogenic units"}
 OUTSIDE = "graphs larger than the bounds; stereo-invalid decorations (descriptor listing a non-bonded atom; known finding); accidental 64-bit collisions are treated as violations, as the property says"
@@ -104,6 +104,8 @@ def unit(t, cls, embed, **sel):
         b = _embed(eqfam.template_spec(name, cname, dict(sel, kind=1, par=1, chg=0)), 4, embed)
     else:
         a = _embed(eqfam.template_spec(name, cname, dict(sel, kind=0, par=0, chg=0)), 5 if sel["sub"] == 1 else 1, embed if sel["sub"] == 1 else 0)
+        if not iso.stereo_valid(gl.snap(gl.build(a))):
+            return None      # orderings that list a substituent on the wrong end are not stereogenic units
         b = dict(a)
         k, at, p = a["bstereo"][0]
         # the other isomer: exchange the two substituents on one end
@@ -138,7 +140,7 @@ def plan(tier, seed):
                 params.update({"lig": (0, 1), "order": (0, 24)})
                 pre = ["order % 2 == 0"] if tier == "quick" else []
             else:
-                params.update({"sub": (0, 2), "order": (0, 48)})
+                params.update({"sub": [0, 1, 6, 7], "order": (0, 48)})
                 pre = ["order % 4 == 0"] if tier == "quick" else []
             units.append(Sel(name=f"fam2_{n}_{c}", func="vp.props.C16:unit", params=params, pre=pre, shard_by=[], timeout=1500, nontrivial="embed > 0"))
     units.append(Nat(name="mixer_order_sensitive", func="vp.shadow.hashlemmas:run_c16", timeout=600))
